@@ -152,9 +152,38 @@ partial def parseE (j : Json) : R E := do
 def optStr (j : Json) (k : String) : Option String :=
   match fldOpt j k with | some v => v.getStr?.toOption | none => none
 
+def cmpOf (s : String) : R CmpOp :=
+  match s with
+  | "==" => pure .eq | "!=" => pure .ne | ">" => pure .gt | ">=" => pure .ge | "<" => pure .lt | "<=" => pure .le
+  | _ => throw s!"cmp {s}"
+
+def parseCondExp (j : Json) : R CondExp := do
+  return { lhs := ← parseE (← fld j "lhs"), op := ← cmpOf (← str j "op"), rhs := ← parseE (← fld j "rhs") }
+
+def parseSymVal (j : Json) : R SymVal :=
+  match fldOpt j "v" with
+  | none => pure .empty
+  | some v => match v.getInt? with
+    | .ok n => pure (.num n)
+    | .error _ => do pure (.word (← v.getStr?))
+
+def parseCondDir (j : Json) : R CondDir := do
+  let d ← str j "d"
+  match d with
+  | "if" => return .ifc (← parseCondExp (← fld j "c"))
+  | "elif" => return .elifc (← parseCondExp (← fld j "c"))
+  | "else" => return .elsec
+  | "endif" => return .endif
+  | "ifdef" => return .ifdef (← str j "s")
+  | "ifndef" => return .ifndef (← str j "s")
+  | _ => throw s!"cond dir {d}"
+
 def parseStmt (j : Json) : R Stmt := do
   let k ← str j "k"
   match k with
+  | "str" => return .str (← str j "raw") ((fldOpt j "term").bind fun t => t.getNat?.toOption)
+  | "define" => return .define (← str j "name") (← parseSymVal j)
+  | "cond" => return .cond (← parseCondDir j)
   | "label" => return .label (← str j "name")
   | "const" => return .const (← str j "name") (← parseE (← fld j "e"))
   | "data" => return .data (← nat j "w") (← (← arr j "vals").toList.mapM parseE)
@@ -192,9 +221,13 @@ def parseCfg (j : Json) : R Cfg := do
     | none => pure []
     | some z => do (← z.getArr?).toList.mapM fun e => do
         let a ← e.getArr?; pure ((← a[0]!.getStr?), (← a[1]!.getInt?), (← a[2]!.getInt?), (← a[3]!.getInt?))
+  let preSyms ← match fldOpt j "preSyms" with
+    | none => pure []
+    | some a => do (← a.getArr?).toList.mapM fun e => do
+        pure ((← str e "name"), (← parseSymVal e))
   return { bits := ← nat j "bits", origin := intD j "origin" 0, little := boolD j "little" false,
            pageSize := intD j "pageSize" 1, regs := regs, preZones := preZones, preConsts := preConsts,
-           preData := preData }
+           preData := preData, preSyms := preSyms }
 
 def jEmitted (e : Emitted) : Json :=
   Json.mkObj [("addr", jInt e.addr), ("size", jInt e.size), ("bytes", jNats e.bytes), ("muted", Json.bool e.muted),
@@ -228,6 +261,50 @@ def opAsm (j : Json) : R Json := do
     return Json.mkObj [("image", jNats o.image), ("specImage", jNats specImg), ("overlapSpec", overlapSpec),
                        ("lines", Json.arr (o.emitted.map jEmitted).toArray), ("labels", jLabels o.labels)]
 
+/-- block trees: {"b":"line","id":n} {"b":"define","name":..,"v":..}
+    {"b":"chain","open":{"d":"if","c":..}|{"d":"ifdef","s":..},"body":[..],"elifs":[{"c":..,"body":[..]}],"else":[..]|null} -/
+partial def parseBlock (j : Json) : R Block := do
+  let b ← str j "b"
+  match b with
+  | "line" => return .item (.line (← nat j "id"))
+  | "define" => return .item (.define (← str j "name") (← parseSymVal j))
+  | "chain" => do
+    let o ← fld j "open"
+    let od ← str o "d"
+    let opener ← match od with
+      | "if" => do pure (Opener.ifc (← parseCondExp (← fld o "c")))
+      | "ifdef" => do pure (Opener.ifdef (← str o "s"))
+      | "ifndef" => do pure (Opener.ifndef (← str o "s"))
+      | _ => throw "opener"
+    let body ← (← arr j "body").toList.mapM parseBlock
+    let elifs ← (← arr j "elifs").toList.mapM fun e => do
+      pure ((← parseCondExp (← fld e "c")), (← (← arr e "body").toList.mapM parseBlock))
+    let els ← match fldOpt j "else" with
+      | none => pure none
+      | some e => do pure (some (← (← e.getArr?).toList.mapM parseBlock))
+    return .chain opener body elifs els
+  | _ => throw s!"block {b}"
+
+def parseSyms (j : Json) : R SymTab :=
+  match fldOpt j "syms" with
+  | none => pure []
+  | some a => do (← a.getArr?).toList.mapM fun e => do
+      pure ((← str e "name"), (← parseSymVal e))
+
+/-- op "condtree": spec (tree semantics) and impl (stack machine on the flattened stream) -/
+def opCondTree (j : Json) : R Json := do
+  let blocks ← (← arr j "blocks").toList.mapM parseBlock
+  let syms ← parseSyms j
+  let spec := selL true { lines := [], syms := syms } blocks
+  let impl := runDirs (flattenL blocks) [] { lines := [], syms := syms }
+  let js : Json := match spec with
+    | .ok s => Json.mkObj [("lines", jNats s.lines)]
+    | .error e => jErr e
+  let ji : Json := match impl with
+    | .ok (st, s) => Json.mkObj [("lines", jNats s.lines), ("open", Json.num (JsonNumber.fromNat st.length))]
+    | .error e => jErr e
+  return Json.mkObj [("spec", js), ("impl", ji)]
+
 def dispatch (j : Json) : R Json := do
   let op ← str j "op"
   match op with
@@ -235,6 +312,7 @@ def dispatch (j : Json) : R Json := do
   | "fields" => opFields j
   | "expr" => opExpr j
   | "asm" => opAsm j
+  | "condtree" => opCondTree j
   | "ping" => pure (Json.mkObj [("pong", Json.bool true)])
   | _ => throw s!"unknown op {op}"
 
